@@ -1,3 +1,4 @@
+#include <sys/syscall.h>
 // SimOS kernel: processes, scheduler, file layer, pipes, signals, and the
 // --wrap entry points the real ninja objects are linked against.
 #include "kernel.h"
@@ -187,12 +188,19 @@ static size_t g_main_stack_size = 0;
 
 static void Fired(const char* what) { P->res.fired[what]++; }
 
+bool g_live_trace = false;   // debugging aid: SIM_LIVE=1 prints every event to the real stderr as it happens
 void Kernel::Trace(Ev::Kind kind, int a, int b, const std::string& s, const std::string& t) {
   if (!proc) return;
   Ev e;
   e.kind = kind; e.seq = ++seq; e.time = now; e.sysno = proc->sysno;
   e.a = a; e.b = b; e.s = s; e.t = t;
   proc->res.trace.push_back(std::move(e));
+  if (g_live_trace) {
+    const Ev& x = proc->res.trace.back(); char buf[512];
+    int n = snprintf(buf, sizeof buf, "EV %lld t=%lld kind=%d a=%d b=%d s=%.200s t=%.60s\n", (long long)x.seq, (long long)x.time, (int)x.kind, x.a, x.b, x.s.c_str(), x.t.c_str());
+    if (n > (int)sizeof buf) n = sizeof buf;
+    syscall(SYS_write, 2, buf, (size_t)n);
+  }
   if (on_event) on_event(proc->res.trace.back());
 }
 
